@@ -88,7 +88,7 @@ def part(run, tier, seed, mode, n_gen=None):
     v1, st1, err1 = C.run_tlc(t1) if t1 else ({}, {"distinct": 0, "states": 0}, {})
     for tid, e in err1.items():
         if "not encodable" not in e:
-            run.error(f"{tid}: {e}")
+            (None if e.startswith("tlc timeout") else run.error(f"{tid}: {e}"))
     # ---- phase 2
     t2, info = [], {}
     for iid, (it, r, ab, Pi, src) in meta.items():
@@ -142,7 +142,7 @@ def part(run, tier, seed, mode, n_gen=None):
     v2, st2, err2 = C.run_tlc(t2) if t2 else ({}, {"distinct": 0, "states": 0}, {})
     for tid, e in err2.items():
         if "not encodable" not in e:
-            run.error(f"{tid}: {e}")
+            (None if e.startswith("tlc timeout") else run.error(f"{tid}: {e}"))
     from .driver import fail_summary
     by_id = {t["id"]: t for t in t2}
     for tid, v in v2.items():
